@@ -98,6 +98,9 @@ func (lc *LineCharge) IsEmpty() bool {
 func CleanLineCharges(lines []*LineCharge) []*LineCharge {
 	var cleaned []*LineCharge
 	for _, l := range lines {
+		if l == nil {
+			continue
+		}
 		if l.IsEmpty() {
 			continue
 		}
